@@ -177,6 +177,11 @@ def m_aliquot(ctx, pre, act, obs, post):
     m_max = max(n_out.values())
     scale = m_max + len(pairs) / max(1, len(dreg)) + 1
     unc = max(ratio_unc(pp, e1.well_of(pre, s).contents, unit) for s in n_out)
+    # the request itself is only defined to the documented internal precision: a mass or an activity is rounded to 10^-precision
+    # of its base unit, a volume or an amount of substance to 10^-precision of the storage unit
+    res = F(10) ** -pp.config.internal_precision
+    dq = res * (ref.storage_prefix(pp, 'L') if unit == 'L' else ref.storage_prefix(pp, 'mol') if unit == 'mol' else 1)
+    q_unc = float(dq / q) if q else 0.0
     for addr, exp_s in expect.items():
         # compared per substance identity (name, kind, parameters), never through Substance.__eq__ / __hash__
         exp = exp_s
@@ -186,7 +191,7 @@ def m_aliquot(ctx, pre, act, obs, post):
             e = exp.get(x, F(0))
             g = got.get(x, 0.0)
             moved = max(abs(float(e) - pre_c.get(x, 0.0)), abs(float(e)))
-            if abs(g - float(e)) > ref.tol(pp, e, 0, scale=scale) + 8 * m_max * m_max * unc * moved:
+            if abs(g - float(e)) > ref.tol(pp, e, 0, scale=scale) + (8 * m_max * m_max * unc + 2 * m_max * q_unc) * moved:
                 role = 'source' if addr in n_out else 'destination'
                 kind = 'wrong-size'
                 # uniformity: does the source keep one common fraction?
